@@ -10,6 +10,7 @@ import (
 	"errors"
 	"fmt"
 	"io"
+	"net"
 	"net/http"
 	"net/http/httptest"
 	"net/url"
@@ -336,9 +337,11 @@ func TestVerifE3HTTP(t *testing.T) {
 			vfE3Replay(f, nodes, out, jsonSeen, hist, fail)
 		}
 	}
+	lastHTTP := ""
 	httpOp := func(v *vfE3Node, method, path, query string, cl int64, body []byte, healthy int) (string, string) {
 		line := fmt.Sprintf("http %s %s %s %s %d %s %d", v.id, method, vfHex([]byte(path)), vfHex([]byte(query)), cl, vfHex(body), healthy)
 		ans := vfE3HTTPOp(v, strings.Fields(line))
+		lastHTTP = line
 		out.Case(line, ans)
 		f := strings.Fields(ans)
 		status := strings.TrimPrefix(f[0], "H=")
@@ -406,7 +409,7 @@ func TestVerifE3HTTP(t *testing.T) {
 					tOK := len(res.replies) == 1 && res.replies[0] == "OK"
 					a, b := vfE3TopicView(snap, twH), vfE3TopicView(snap, twT)
 					if hOK != tOK || (hOK && a != b) {
-						fail("ORACLE-FAIL key=pub-equiv req=%s what=/pub?%s answered %s but TCP answered %v; queues %s vs %s", vfHex(tcp), q, hs, res.replies, a, b)
+						fail("ORACLE-FAIL key=pub-equiv req=%s what=/pub?%s answered %s but TCP answered %v; queues %s vs %s", strings.ReplaceAll(lastHTTP, " ", "|")+"||io|"+v.id+"|"+vfHex(tcp), q, hs, res.replies, a, b)
 					}
 					hist["twin:pub"]++
 				}
@@ -425,13 +428,19 @@ func TestVerifE3HTTP(t *testing.T) {
 				}
 				tcp := append([]byte("  V2MPUB "+twT+"\n"), vfE3BE32(uint32(len(batch)))...)
 				tcp = append(tcp, batch...)
-				hs, _ := httpOp(v, "POST", "/mpub", "topic="+twH+"&binary=true", int64(len(batch)), batch, 1)
+				bcl := int64(len(batch))
+				if g.r.Intn(2) == 0 {
+					bcl = -1 // chunked: no declared length
+					hist["twin:mpub-binary-chunked"]++
+				}
+				hs, _ := httpOp(v, "POST", "/mpub", "topic="+twH+"&binary=true", bcl, batch, 1)
+				lastHTTPb := lastHTTP
 				res, snap := ioOp(v, g.vfE3Gen, tcp)
 				hOK := hs == "200"
 				tOK := len(res.replies) >= 1 && res.replies[0] == "OK"
 				a, b := vfE3TopicView(snap, twH), vfE3TopicView(snap, twT)
 				if hOK != tOK || (hOK && a != b) {
-					fail("ORACLE-FAIL key=mpub-binary-equiv req=%s what=binary /mpub answered %s but TCP MPUB answered %v; queues %s vs %s", vfHex(tcp), hs, res.replies, a, b)
+					fail("ORACLE-FAIL key=mpub-binary-equiv req=%s what=binary /mpub answered %s but TCP MPUB answered %v; queues %s vs %s", strings.ReplaceAll(lastHTTPb, " ", "|")+"||io|"+v.id+"|"+vfHex(tcp), hs, res.replies, a, b)
 				}
 				hist["twin:mpub-binary"]++
 			case 3: // twin-topic oracle: text /mpub vs MPUB of the non-empty lines
@@ -446,6 +455,7 @@ func TestVerifE3HTTP(t *testing.T) {
 					}
 				}
 				hs, _ := httpOp(v, "POST", "/mpub", "topic="+twH+"", int64(len(text)), text, 1)
+				lastHTTPt := lastHTTP
 				if len(blocks) == 0 || int64(len(text)) > o.MaxBodySize {
 					continue
 				}
@@ -462,12 +472,16 @@ func TestVerifE3HTTP(t *testing.T) {
 				tOK := len(res.replies) >= 1 && res.replies[0] == "OK"
 				a, b := vfE3TopicView(snap, twH), vfE3TopicView(snap, twT)
 				if hOK != tOK || (hOK && a != b) {
-					fail("ORACLE-FAIL key=mpub-text-equiv req=%s what=text /mpub answered %s but TCP MPUB of its lines answered %v; queues %s vs %s", vfHex(text), hs, res.replies, a, b)
+					fail("ORACLE-FAIL key=mpub-text-equiv req=%s what=text /mpub answered %s but TCP MPUB of its lines answered %v; queues %s vs %s", strings.ReplaceAll(lastHTTPt, " ", "|")+"||io|"+v.id+"|"+vfHex(tcp), hs, res.replies, a, b)
 				}
 				hist["twin:mpub-text"]++
 			case 5, 6: // admin scenario on a small universe: cross-object effects, pause + publish + empty
 				topics := []string{"ta", "tb#ephemeral"}
 				chans := []string{"c1", "c2#ephemeral"}
+				if g.r.Intn(3) == 0 { // names that contain the word the pause handlers look for in the PATH
+					topics = []string{g.pick("unpause_x", "x.unpause", "jobs_unpaused"), "tb#ephemeral"}
+					chans = []string{g.pick("unpause-worker", "c.unpause.d"), "c2#ephemeral"}
+				}
 				if g.r.Intn(2) == 0 { // setup: a paused topic that has a channel and holds messages itself
 					tn := topics[g.r.Intn(2)]
 					httpOp(v, "POST", "/channel/create", "topic="+url.QueryEscape(tn)+"&channel="+url.QueryEscape(chans[g.r.Intn(2)]), 0, nil, 1)
@@ -489,9 +503,9 @@ func TestVerifE3HTTP(t *testing.T) {
 					case 1, 2:
 						httpOp(v, "POST", "/channel/create", "topic="+url.QueryEscape(tn)+"&channel="+url.QueryEscape(cn), 0, nil, 1)
 					case 3:
-						httpOp(v, "POST", "/topic/"+g.pick("pause", "unpause"), "topic="+url.QueryEscape(tn), 0, nil, 1)
+						httpOp(v, "POST", "/topic/"+g.pick("pause", "pause", "unpause"), "topic="+url.QueryEscape(tn)+g.pick("", "", "&x=unpause", "&unpause=1"), 0, nil, 1)
 					case 4:
-						httpOp(v, "POST", "/channel/"+g.pick("pause", "unpause"), "topic="+url.QueryEscape(tn)+"&channel="+url.QueryEscape(cn), 0, nil, 1)
+						httpOp(v, "POST", "/channel/"+g.pick("pause", "pause", "unpause"), "topic="+url.QueryEscape(tn)+"&channel="+url.QueryEscape(cn)+g.pick("", "", "&x=unpause"), 0, nil, 1)
 					case 5, 6, 7:
 						body := []byte(fmt.Sprintf("a%d", g.r.Intn(100)))
 						q := "topic=" + url.QueryEscape(tn)
@@ -521,6 +535,78 @@ func TestVerifE3HTTP(t *testing.T) {
 				httpOp(v, m, p, q, cl, body, 1)
 			}
 		}
+	}
+	// concurrent leg: two binary /mpub requests overlap on the real listener; A's first length prefix
+	// arrives split across two reads while B is served completely in between. Each must be answered 200
+	// and enqueue exactly its own bodies (no state shared between requests).
+	for _, id := range ids {
+		if id == "T" {
+			continue
+		}
+		v := nodes[id]
+		o := v.n.getOpts()
+		if o.MaxMsgSize < 70000 {
+			continue // the interference needs a length prefix with non-zero high bytes
+		}
+		for round := 0; round < 3; round++ {
+			v.Reset()
+			splitAt := 1 + round%3
+			bodiesA := [][]byte{[]byte("a1"), []byte("a-two")}
+			bodiesB := [][]byte{bytes.Repeat([]byte("B"), 65536+257*round+1), bytes.Repeat([]byte("b"), 66000)}
+			enc := func(bs [][]byte) []byte {
+				out := vfE3BE32(uint32(len(bs)))
+				for _, b := range bs {
+					out = append(append(out, vfE3BE32(uint32(len(b)))...), b...)
+				}
+				return out
+			}
+			ba, bb := enc(bodiesA), enc(bodiesB)
+			addr := v.n.RealHTTPAddr().String()
+			ca, errA := net.DialTimeout("tcp", addr, 5*time.Second)
+			cb, errB := net.DialTimeout("tcp", addr, 5*time.Second)
+			if errA != nil || errB != nil {
+				fail("ORACLE-FAIL key=http-concurrent req=- what=cannot connect to the HTTP listener: %v %v", errA, errB)
+				break
+			}
+			hdr := func(topic string, n int) string {
+				return fmt.Sprintf("POST /mpub?topic=%s&binary=true HTTP/1.1\r\nHost: verif\r\nContent-Length: %d\r\nConnection: close\r\n\r\n", topic, n)
+			}
+			ca.Write([]byte(hdr("conA", len(ba))))
+			ca.Write(ba[:splitAt])
+			time.Sleep(30 * time.Millisecond) // let the handler of A block inside its first 4-byte read
+			cb.Write([]byte(hdr("conB", len(bb))))
+			cb.Write(bb)
+			cb.SetReadDeadline(time.Now().Add(10 * time.Second))
+			rb, _ := io.ReadAll(cb)
+			ca.Write(ba[splitAt:])
+			ca.SetReadDeadline(time.Now().Add(10 * time.Second))
+			ra, _ := io.ReadAll(ca)
+			ca.Close()
+			cb.Close()
+			snap := v.Snapshot()
+			want := func(bs [][]byte) string {
+				var ms []string
+				for _, b := range bs {
+					ms = append(ms, vfE3ShowBytes(b)+"~0")
+				}
+				return fmt.Sprintf("0:%d:%s:-", len(bs), strings.Join(ms, ","))
+			}
+			okA := bytes.HasPrefix(ra, []byte("HTTP/1.1 200")) && vfE3TopicView(snap, "conA") == want(bodiesA)
+			okB := bytes.HasPrefix(rb, []byte("HTTP/1.1 200")) && vfE3TopicView(snap, "conB") == want(bodiesB)
+			hist["concurrent:mpub-pair"]++
+			if !okA || !okB {
+				first := func(b []byte) string {
+					if i := bytes.IndexByte(b, '\r'); i > 0 {
+						return string(b[:i])
+					}
+					return string(b)
+				}
+				fail("ORACLE-FAIL key=http-concurrent req=- what=two overlapping binary /mpub requests (A: 2 small messages, its count prefix split after %d byte(s); B: %d+66000 bytes served in between) interfered: A answered %q and topic conA holds %s (expected %s); B answered %q and conB holds %s",
+					splitAt, len(bodiesB[0]), first(ra), vfE3TopicView(snap, "conA"), want(bodiesA), first(rb), vfE3TopicView(snap, "conB")[:40])
+				break
+			}
+		}
+		v.Reset()
 	}
 	// smoke: the same server behind the real listener (net/http parsing, chunked encoding)
 	for _, id := range ids {
